@@ -867,3 +867,64 @@ def stream_exc(tier):
     res.sample({"op": ops[-1], "impl": impl[-1]})
     diff(res, ops, impl)
     return res
+
+
+# ------------------------------------------------------------------ stream: two decoders at once (only when the codec is no longer pure)
+def stream_concurrent_decode(tier):
+    """The request decoders are modelled as pure functions, and `Props/StateCodec` ties that assumption to the source.  When the
+    tie breaks (a decoder now writes module-level or class-level state) this stream looks for the failing input: two or three
+    threads — the reader threads of a Metadata and a Data server in one process — decode their own requests at the same
+    time under the scheduler, preempted line by line inside the flagged functions, and every thread must get exactly what it
+    gets alone (the same value, or the protocol error naming ITS method).  With the tie intact a handful of runs are made."""
+    import shim
+    import extract
+    import random as _random
+    p, _, _ = mods()
+    R = C.rng("concurrent-decode")
+    res = Result("concurrent-decode-exploration")
+    flagged = extract.state_functions()
+    codec_files = [f for f in flagged if f in ("protocol.py", "data_protocol.py", "metadata_protocol.py")]
+    n = {"quick": 150, "search": 800, "thorough": 3000}[tier] if codec_files else 10
+    res.distribution["codec_functions_flagged"] = sum(len(flagged[f]) for f in codec_files)
+    for i in range(n):
+        jobs = []
+        for _ in range(R.choice([2, 2, 3])):
+            method = R.choice(ari.METHODS)
+            fixed, tail = gen_request(method, R)
+            toks = ari.encode_args(method, fixed, tail)
+            if R.random() < 0.6:
+                toks, _, _ = malform(method, toks, R)
+            jobs.append((method, list(toks)))
+        alone = [c_read(m, t)[0] for m, t in jobs]
+        seed = R.getrandbits(40)
+        SR = _random.Random(seed)
+        sched = shim.Sched(lambda names, ops: SR.choice(names))
+        sched.fine = _random.Random(seed ^ 0xC0DEC)
+        sched.fine_files = ("protocol.py", "data_protocol.py", "metadata_protocol.py")
+        sched.fine_p = R.choice([0.3, 0.7, 1.0])
+        sched.fine_server_factor = 1.0
+        if codec_files:
+            sched.fine_focus = {f for fs in flagged.values() for f in fs}
+        sched.max_chunks = 100000
+        shim.SCHED = sched
+        together = [None] * len(jobs)
+        try:
+            for k, (m, t) in enumerate(jobs):
+                def body(k=k, m=m, t=t):
+                    together[k] = c_read(m, t)[0]
+                sched.spawn("R%d" % k, body)
+            sched.run()
+        finally:
+            sched.teardown()
+            shim.SCHED = None
+        res.traces += 1
+        res.evaluations += len(jobs)
+        res.distribution["line_preemptions"] += sum(1 for ch in sched.chunks if ch["op"][0] == "line")
+        res.nontrivial.add(seed)
+        for k, (m, t) in enumerate(jobs):
+            if together[k] != alone[k]:
+                res.violation("decode-depends-on-other-thread", "read_%s of %r gives %r alone but %r while %s is being decoded by another thread"
+                              % (m, t[:6], alone[k], together[k], ", ".join(j[0] for q, j in enumerate(jobs) if q != k)),
+                              {"jobs": jobs, "seed": seed})
+                break
+    return res
